@@ -1,0 +1,25 @@
+//go:build verif
+
+package verifhooks
+
+import (
+	"context"
+	"time"
+
+	"github.com/atlassian/gostatsd/internal/flush"
+	"github.com/atlassian/gostatsd/internal/util"
+)
+
+// FlushCoordinator is internal/flush.Coordinator.
+type FlushCoordinator = flush.Coordinator
+
+// NewFlushCoordinator re-exports internal/flush.NewFlushCoordinator.
+func NewFlushCoordinator() flush.Coordinator { return flush.NewFlushCoordinator() }
+
+// AlignedTicker is internal/util.AlignedTicker.
+type AlignedTicker = util.AlignedTicker
+
+// NewAlignedTickerWithContext re-exports internal/util.NewAlignedTickerWithContext.
+func NewAlignedTickerWithContext(ctx context.Context, interval, offset time.Duration) *util.AlignedTicker {
+	return util.NewAlignedTickerWithContext(ctx, interval, offset)
+}
